@@ -14,6 +14,9 @@ WHAT = {"archive": "C08 revision archived against the rule (not confirmed paused
 
 def check(run, tier, seed, replay=None):
     run.assumptions += [
+        "ObjectSets of a like-labelled deployment in a second namespace (corpus entries with 'foreign' ObjectSets: same / other template "
+        "hashes, higher / lower revisions) are not part of the model's world; that no request of a deployment pass names them, that they "
+        "stay unchanged and never appear in spec.previous is judged on the observed requests and stored objects (depcheck.namespace_violations)",
         "pass-level atomicity; List returns ObjectSets in key order and sort.Sort is stable (insertion sort) for at most 12 ObjectSets",
         "objects of a revision = objects inlined in its phases + objects of the ObjectSlices its phases name (ObjectSlices of the scenario "
         "are never written); controllerOf as stored in status (nil and [] are told apart only where a third party stored [])",
@@ -50,6 +53,8 @@ def check(run, tier, seed, replay=None):
         if any(c[0] == "dep" and any(e[0] != "status" for e in c[4]) for c in cls[1]):
             run.classes.add(cls)
         agree, mons = r[0], dict(zip(NAMES, r[1:]))
+        if dc.ID_NS_REQ in dc.namespace_violations(sc, obs):
+            run.violation(dc.ID_NS_REQ, {"scenario": dl.slim(sc), "impl": dc.slim_obs(obs), "monitor": "namespace"}, True)
         concrete = False
         for name in ("archive", "gc", "paused", "unpause", "shared"):
             if mons[name]:
@@ -60,6 +65,8 @@ def check(run, tier, seed, replay=None):
                 ident = dc.ID_C08M if dc.has_missing_slice(sc) else dc.ID_C08
             if name == "shared" and dc.has_slices(sc):
                 ident = dc.ID_C08S
+            elif name == "shared":
+                ident = dc.handover_identity(sc, obs) or ident
             run.violation(ident, {"scenario": dl.slim(sc), "impl": dc.slim_obs(obs), "monitor": name}, True)
         if not agree and not concrete:
             run.violation("corr:C08/deployment model and implementation differ",
